@@ -17,6 +17,8 @@
  *   chgpath t<k> <hex path> <hex value>    lyd_change_term; rc
  *   move t<k> <hex path> <hex anchor path> <c|s>     lyd_unlink_tree(node); lyd_insert_child/sibling(anchor, node); rc
  *   dupins t<k> <hex path> <hex anchor path> <c|s>   lyd_dup_single(node) + insert; rc
+ *   rt t<src> t<dst> <x|j|b> <print opts> <parse opts> <val opts>   lyd_print_mem(src), lyd_parse_data of the text; VERDICT
+ *                                          ("P<rc>" when printing fails); b = LYB
  *   free t<k>
  * VERDICT: "0" or  <rc>/<vecode>/<app-tag or ->/<class>  with class one of
  *   type nokey dup dupcase nomand nomandchoice nomin nomax nouniq nomust nowhen noinst keyorder unknown state other
@@ -232,6 +234,12 @@ dump_one(struct sbuf *o, const struct lyd_node *n, int depth, int opts)
     }
 }
 
+static LYD_FORMAT
+fmt_of(const char *w)
+{
+    return (w[0] == 'j') ? LYD_JSON : (w[0] == 'b') ? LYD_LYB : LYD_XML;
+}
+
 static void
 run_cmd(char *cmd, struct sbuf *o)
 {
@@ -291,7 +299,7 @@ run_cmd(char *cmd, struct sbuf *o)
         lyd_free_all(T[t]);
         T[t] = NULL;
         ly_in_new_memory(data, &in);
-        rc = lyd_parse_data(C, NULL, in, (w[2][0] == 'j') ? LYD_JSON : LYD_XML, (uint32_t)strtoul(w[3], NULL, 0),
+        rc = lyd_parse_data(C, NULL, in, fmt_of(w[2]), (uint32_t)strtoul(w[3], NULL, 0),
                 (uint32_t)strtoul(w[4], NULL, 0), &tree);
         ly_in_free(in, 0);
         verdict(o, rc);
@@ -407,6 +415,34 @@ run_cmd(char *cmd, struct sbuf *o)
         }
         free(p);
         free(a);
+    } else if (!strcmp(w[0], "rt")) {
+        NEED(7);
+        int t = slot_t(w[2]);
+        struct lyd_node *n = T[slot_t(w[1])], *tree = NULL;
+        char *text = NULL;
+        LYD_FORMAT f = fmt_of(w[3]);
+        LY_ERR rc = lyd_print_mem(&text, n, f, (uint32_t)strtoul(w[4], NULL, 0) | LYD_PRINT_WITHSIBLINGS);
+
+        lyd_free_all(T[t]);
+        T[t] = NULL;
+        if (rc || !text) {
+            sb_fmt(o, "P%d", (int)rc);
+        } else {
+            struct ly_in *in = NULL;
+
+            ly_in_new_memory(text, &in);
+            ly_err_clean(C, NULL);
+            rc = lyd_parse_data(C, NULL, in, f, (uint32_t)strtoul(w[5], NULL, 0), (uint32_t)strtoul(w[6], NULL, 0), &tree);
+            ly_in_free(in, 0);
+            verdict(o, rc);
+            if (rc && tree) {
+                sb_str(o, "!tree-returned-on-error");
+                lyd_free_all(tree);
+                tree = NULL;
+            }
+            T[t] = tree;
+        }
+        free(text);
     } else if (!strcmp(w[0], "free")) {
         NEED(2);
         lyd_free_all(T[slot_t(w[1])]);
